@@ -573,9 +573,10 @@ Definition finish (m : mst) : mst :=
 
 Record bparams := mkBP {
   p_sos : bool; p_etick : bool; p_ewake : bool; p_rtick : bool; p_rwake : bool;
-  p_d : Z; p_c : Z; p_m : Z; p_l : Z; p_acc : Z; p_cnt : Z; p_wk : Z }.
+  p_d : Z; p_c : Z; p_m : Z; p_l : Z; p_acc : Z; p_cnt : Z; p_wk : Z;
+  p_erun : bool }.                   (* emit on every run of the user code, whatever caused it *)
 
-Definition dflt_bp : bparams := mkBP false true false false false 1 0 0 1 0 0 0.
+Definition dflt_bp : bparams := mkBP false true false false false 1 0 0 1 0 0 0 false.
 
 Definition table_step (p : bparams) (st : Z) (woke : bool) (ivs : list inview) : Z * option Z * option Z :=
   let ticked := existsb (fun v => v_valid v && v_mod v) ivs in
@@ -584,7 +585,7 @@ Definition table_step (p : bparams) (st : Z) (woke : bool) (ivs : list inview) :
   let s1 := if ticked then st + p_acc p * sum_mod + p_cnt p else st in
   let s2 := if woke then s1 + p_wk p else s1 in
   (s2,
-   if (ticked && p_etick p) || (woke && p_ewake p) then Some (p_c p + p_m p * s2 + p_l p * sum_valid) else None,
+   if p_erun p || (ticked && p_etick p) || (woke && p_ewake p) then Some (p_c p + p_m p * s2 + p_l p * sum_valid) else None,
    if (ticked && p_rtick p) || (woke && p_rwake p) then Some (p_d p) else None).
 
 Definition table_body (p : bparams) : body := mkBody (p_sos p) (table_step p).
@@ -597,28 +598,31 @@ Record dcase := mkD {
   d_dflt : option (Z * bool);
   d_tab  : list bparams;                      (* NSLOT entries *)
   d_hist : hist;
-  d_shape : Z }.
+  d_shape : Z;
+  d_depth : Z }.
 
-Definition dcase0 : dcase := mkD 1 10 1 false [] None (repeat dflt_bp 6) [] 0.
+Definition dcase0 : dcase := mkD 1 10 1 false [] None (repeat dflt_bp 6) [] 0 0.
 
 Definition decode_line (d : dcase) (l : line) : dcase :=
   match l with
-  | 1 :: s :: e :: _ => mkD s e (d_nts d) (d_reload d) (d_ents d) (d_dflt d) (d_tab d) (d_hist d) (d_shape d)
+  | 1 :: s :: e :: _ => mkD s e (d_nts d) (d_reload d) (d_ents d) (d_dflt d) (d_tab d) (d_hist d) (d_shape d) (d_depth d)
   | 2 :: n :: r :: rest => mkD (d_start d) (d_end d) n (z2b r) (d_ents d) (d_dflt d) (d_tab d) (d_hist d)
                                (match rest with sh :: _ => sh | [] => 0 end)
+                               (match rest with _ :: dp :: _ => dp | _ => 0 end)
   | 3 :: k :: sl :: uk :: _ =>
-      mkD (d_start d) (d_end d) (d_nts d) (d_reload d) (d_ents d ++ [(k, sl, z2b uk)]) (d_dflt d) (d_tab d) (d_hist d) (d_shape d)
+      mkD (d_start d) (d_end d) (d_nts d) (d_reload d) (d_ents d ++ [(k, sl, z2b uk)]) (d_dflt d) (d_tab d) (d_hist d) (d_shape d) (d_depth d)
   | 4 :: sl :: uk :: _ =>
-      mkD (d_start d) (d_end d) (d_nts d) (d_reload d) (d_ents d) (Some (sl, z2b uk)) (d_tab d) (d_hist d) (d_shape d)
-  | 5 :: sl :: sos :: et :: ew :: rt :: rw :: dd :: c :: mm :: ll :: acc :: cnt :: wk :: _ =>
+      mkD (d_start d) (d_end d) (d_nts d) (d_reload d) (d_ents d) (Some (sl, z2b uk)) (d_tab d) (d_hist d) (d_shape d) (d_depth d)
+  | 5 :: sl :: sos :: et :: ew :: rt :: rw :: dd :: c :: mm :: ll :: acc :: cnt :: wk :: rest =>
       if (0 <=? sl) && (sl <? NSLOT) then
         mkD (d_start d) (d_end d) (d_nts d) (d_reload d) (d_ents d) (d_dflt d)
-            (set_nth (Z.to_nat sl) (mkBP (z2b sos) (z2b et) (z2b ew) (z2b rt) (z2b rw) dd c mm ll acc cnt wk) (d_tab d))
-            (d_hist d) (d_shape d)
+            (set_nth (Z.to_nat sl) (mkBP (z2b sos) (z2b et) (z2b ew) (z2b rt) (z2b rw) dd c mm ll acc cnt wk
+                                       (match rest with e :: _ => z2b e | [] => false end)) (d_tab d))
+            (d_hist d) (d_shape d) (d_depth d)
       else d
   | 6 :: k :: t :: v :: _ =>
       if (0 <=? k) && (k <=? 2) then
-        mkD (d_start d) (d_end d) (d_nts d) (d_reload d) (d_ents d) (d_dflt d) (d_tab d) (d_hist d ++ [(k, t, v)]) (d_shape d)
+        mkD (d_start d) (d_end d) (d_nts d) (d_reload d) (d_ents d) (d_dflt d) (d_tab d) (d_hist d ++ [(k, t, v)]) (d_shape d) (d_depth d)
       else d
   | _ => d
   end.
@@ -629,6 +633,7 @@ Definition slot_ok (sl : Z) : bool := (0 <=? sl) && (sl <? NSLOT).
 
 Definition case_ok (d : dcase) : bool :=
   (0 <=? d_nts d) && (d_nts d <=? 2) && (0 <=? d_shape d) && (d_shape d <=? 1) &&
+  (0 <=? d_depth d) && (d_depth d <=? 2) && ((d_depth d =? 0) || (d_shape d =? 0)) &&
   (negb (match d_ents d with [] => true | _ => false end) || is_some (d_dflt d)) &&
   forallb (fun e => slot_ok (snd (fst e))) (d_ents d) &&
   match d_dflt d with Some (sl, _) => slot_ok sl | None => true end &&
@@ -649,10 +654,18 @@ Definition final_lines (setsh : bool) (m : mst) : wire :=
    then [31; b2z (o_valid (m_out m)); o_lmt (m_out m); Z.of_nat (length (o_set (m_out m)))] ++ o_set (m_out m)
    else [30; b2z (is_some (o_val (m_out m))); match o_val (m_out m) with Some v => v | None => 0 end; o_lmt (m_out m)]].
 
+(* A case with d_depth > 0 wraps every branch body in d_depth nested graph nodes
+   (nested_<G>).  The wrapper is TRANSPARENT in this model: the run is the same, and
+   the driver's reference pass (the same case with the body inlined, recorder lines
+   only, re-coded 20 -> 40) is the model's own recorder stream. *)
+Definition ref_lines (log : list line) : wire :=
+  flat_map (fun l => match l with 20 :: r => [40 :: r] | _ => [] end) log.
+
 Definition run_switch (w : wire) : wire :=
   let d := decode w in
   if negb (case_ok d) then [[29; 9]] else
   let m := finish (mirror_run (spec_of d) (d_hist d) (d_start d) (d_end d) (Z.to_nat (d_end d - d_start d) + 1)) in
+  (if 0 <? d_depth d then ref_lines (rev (m_log m)) else []) ++
   rev (m_log m) ++ final_lines (s_set (spec_of d)) m.
 
 (* the specification's observable: the output ticks, as recorder lines *)
